@@ -241,14 +241,14 @@ func c20Show(t arCase) string {
 
 func c20(c *vc.Ctx) {
 	quick := c.Quick()
-	c.Rule = fmt.Sprintf("arithmetic texts E := O | O binop E | O ? E : E, O := pre* A post?, A := leaf | ( E ) (every rendering of every expression tree, with and without grouping parentheses; text-level so each text occurs once; a redundant outermost pair of parentheses is left out); cost = number of operators (20 binary, 11 assignment, ?:, 6 prefix incl. ++/--, 2 postfix); leaves full=%q (+%q for cost<=1), reduced=%q, tiny=%q. Enumerated: (1) cost<=1 over the full leaves in all seven contexts %q (`let` unquoted only for texts without shell metacharacters); (2) all of cost 2 over %s in $(( )); (3) %s; (4) literal sweep in $(( )), as the text itself and as the value of a variable: \"0\"+s for every s of <=3 characters of %q, B#D for B in %q and every D of <=2 characters of %q, and %q; (5) value sweep: v holding each of %q, used in each of %q in contexts %q. State x=5 y=-3 e='1+2' u unset arr=(4 5 6). Excluded (counted) by a big-integer reference evaluator: signed 64-bit overflow or shift count outside 0..63 reached before any error. distinct = distinct (value, status, variable state) outcomes of the interpreter",
-		c20FullLeaves, c20ParenLeaves, c20ReducedLeaves, c20TinyLeaves, c20Contexts,
+	c.Rule = fmt.Sprintf("arithmetic texts E := O | O binop E | O ? E : E, O := pre* A post?, A := leaf | ( E ) (every rendering of every expression tree, with and without grouping parentheses; text-level so each text occurs once; a redundant outermost pair of parentheses is left out); cost = number of operators (20 binary, 11 assignment, ?:, 6 prefix incl. ++/--, 2 postfix); leaves full=%q (+%q for cost<=1), reduced=%q, tiny=%q. Enumerated, in this order: (0) the precedence matrix in $(( )): `a op1 b op2 c` for every ordered pair of the 31 binary/assignment operators, `a op b ? c : d` and `a ? b : c op d` for every binary operator, `a ? b : c ? d : e`, `pre a op b` for every prefix and binary operator, each with the first %d leaf tuples over %q (in that order) for which the reference evaluator says that the two groupings are inside the quantifier and differ in value or variable state (tuples where both groupings are values first; the first tuple when no tuple tells them apart); (1) cost<=1 over the full leaves in all seven contexts %q (`let` unquoted only for texts without shell metacharacters); (2) all of cost 2 over %s in $(( )); (3) %s; (4) literal sweep in $(( )), as the text itself and as the value of a variable: \"0\"+s for every s of <=3 characters of %q, B#D for B in %q and every D of <=2 characters of %q, and %q; (5) value sweep: v holding each of %q, used in each of %q in contexts %q. State x=5 y=-3 e='1+2' u unset arr=(4 5 6). Excluded (counted) by a big-integer reference evaluator: signed 64-bit overflow or shift count outside 0..63 reached before any error. distinct = distinct (value, status, variable state) outcomes of the interpreter",
+		c20FullLeaves, c20ParenLeaves, c20ReducedLeaves, c20TinyLeaves, c20PrecPerPair, c20PrecLeaves, c20Contexts,
 		vc.Pick(c, "the tiny leaves", "the reduced leaves"), vc.Pick(c, "cost 3 not enumerated", fmt.Sprintf("all of cost 3 over the leaves 2 and x in $(( )) with the operators restricted to one of (nearly) every precedence level: binary %q, prefix %q, postfix %q", c20RepBinops, c20RepPreOps, c20RepPostOps)),
 		c20ZeroAlphabet, c20Bases, c20DigitAlphabet, c20PlainLits, c20Values, c20ValueExprs, c20ValueCtxs)
 	c.Assumptions = []string{
 		"bash 5.2.15 is the oracle; compared are the printed value (or that no value was produced = error), $? after the command, whether a diagnostic was written (this tells an error from a zero value in (( )) and let), and x y e u arr (values and indices) i n afterwards; error message texts are not compared",
 		"a program the interpreter rejects at parse time counts as an error; bash must then report an error for the same text, but side effects bash performs before reaching the syntax error are not compared",
-		"the reference evaluator is used only to exclude overflow / out-of-range shift cases, never as an oracle; it is itself compared with bash on every $(( )) case it does not exclude (ref_checked), a disagreement is reported as a failure of the case. Besides, two class predicates ask it whether the error bash reported was raised inside an operand bash does not evaluate (this only names a failure, it never makes a case pass)",
+		"the reference evaluator is used only to exclude overflow / out-of-range shift cases and to choose the operand values of the precedence matrix (inputs), never as an oracle; it is itself compared with bash on every $(( )) case it does not exclude (ref_checked), a disagreement is reported as a failure of the case. Besides, two class predicates ask it whether the error bash reported was raised inside an operand bash does not evaluate (this only names a failure, it never makes a case pass)",
 	}
 	c.Reruns = 1
 
@@ -272,6 +272,15 @@ func c20(c *vc.Ctx) {
 			}
 			emit0(t)
 		}
+		// (0) the precedence matrix first: a budget-limited run must decide
+		// how every two operators group before it spends its time on the
+		// (much larger) one-operator sweep
+		inMatrix := map[string]bool{}
+		c20PrecMatrix(func(s string) {
+			inMatrix[s] = true
+			c.Count("precedence_matrix_texts", 1)
+			emit(arCase{Ctx: "exp", Expr: s})
+		})
 		full1 := newArGen(append(append([]string{}, c20FullLeaves...), c20ParenLeaves...))
 		for k := 0; k <= 1; k++ {
 			full1.each(k, true, func(s string) {
@@ -295,7 +304,11 @@ func c20(c *vc.Ctx) {
 			}
 		}
 		g2 := newArGen(vc.Pick(c, c20TinyLeaves, c20ReducedLeaves))
-		g2.each(2, true, func(s string) { emit(arCase{Ctx: "exp", Expr: s}) })
+		g2.each(2, true, func(s string) {
+			if !inMatrix[s] { // each text once
+				emit(arCase{Ctx: "exp", Expr: s})
+			}
+		})
 		if !quick {
 			g3 := newArGen(c20TwoLeaves)
 			g3.binops, g3.pre, g3.post = c20RepBinops, c20RepPreOps, c20RepPostOps
